@@ -23,11 +23,11 @@ func init() {
 		Property: "C08", Name: "R-chain/sign", Level: "exploration",
 		Rule: "the core is a pure function of the wire bytes (who signed what); simulation contributes only the pipeline position of the tampering (mempool admission, inside a proposed block) and the sender-cache state (transaction cached+BasicChecked in the replica's mempool or not, cache entries expired by virtual time or not). " +
 			"One run = one seeded chain (1-4 validators, 4-8 secp256k1 users with coin and two token balances, kv or trie state; in 2/3 of the runs also 3 confidential wallets with 2 sub-addresses each and 2 stranger key sets) with a block producer P and an honest replica R (real LinkApplication + Mempool with the tx cache on), 2-6 blocks. Per block: 2-10 transactions of the kinds transfer / contract call / contract creation / token transfer (LKC and tokens) / contract upgrade (multi-signed) / multi-sign-account (validator-signed) / account->UTXO funding / UTXO->UTXO spend (ring 1 = classic ring signature, ring 2-11 = MLSAG; change to a sub-address) / UTXO->account withdrawal, signed by linkchain's own client code or (transfers, token transfers) by the rig's btcec client; each goes over the wire to P and (warm cache) or not (cold) to R. " +
-			"Tamper catalogue on the wire bytes (55 entries: every signed field of every account kind, multi-field, r/s/v = 0, = N, > N, 33-byte, high-s twin with and without flipped recovery id, wrong/out-of-range recovery id, V legacy 27/28, raw recovery id, other chain, +2^64, +256, bit flips, signature from another tx, re-signed by another key / for another chain / for no chain, upgrade signature lists dropped/duplicated/sender removed/colluding co-signers naming a victim, validator signatures flipped/minority/repeated/duplicated/re-signed by a minority) and on confidential transactions (27 entries: account input nonce/amount, key image, ring member, one-time address, remark, amount field, account output recipient/amount, token, tx key, additional keys, fee, extra, account signature, encrypted amounts, output commitments, range proof, amounts moved to one recipient, pseudo output, MLSAG c/s, classic ring signature, type, fee field; a spend built with another wallet's keys), offered (1) to R's mempool and (2) inside a block whose result hashes the producer computed as if the victim had sent it (sender pre-filled) or honestly, to R.CheckBlock. One tampered transfer per run is planned before genesis so that the account it recovers to is funded (the different sender is really charged). " +
-			"Oracle: the rig's own reading of the wire bytes (own RLP reader, own signing hash keccak(rlp(fields, chainParameter, 0, 0)), pure-Go btcec recovery, stdlib ed25519, range rules 1<=r<N, 1<=s<=N/2, V=35+2p+recid) says whether a transaction is authorised and whom it charges; ring-signed transactions are authorised iff they are byte-for-byte what an owner built (every edit is a forgery by construction); recognition ground truth is what the rig addressed to whom. Violations: accepted+unauthorised; accepted with another believed sender; accepted with an edited field and the original sender; a victim-charging block accepted; after every commit nonce/balance/token movements (own pre/post state reads of users, signers, victims) that differ from the authorised senders; an output missed by its owner, recognised by another key set, or decoded to another amount/sub-address; a re-signed object that keeps its memoised sender. " +
-			"non-trivial = >= 2 blocks committed, >= 10 tampered transactions judged at the mempool, >= 3 tampered blocks judged, at least one with a warm cache; distinct = committed block hashes + every (tamper, stage, outcome).",
-		Real: []string{"types.Transaction / TokenTransaction / ContractUpgradeTx / MultiSignAccountTx / UTXOTransaction (client-side construction and Sign, wire codec, Hash, From, CheckBasic, CheckState, checkRingctSignatures, isOutputBelongToAccount, generateKeyImage, generateOneTimeAddress)", "types STDEIP155Signer, recoverPlain", "libs/crypto secp256k1 (cgo) Sign/Ecrecover/ValidateSignatureValues", "mempool.Mempool incl. tx cache (txHeapManager), key-image cache and the expiry loops under virtual time", "app.LinkApplication CheckTx/PreRunBlock/CheckBlock (verifyTxsOnProcess, verifySpecTxSign)/CommitBlock, StateProcessor, state transition, EVM", "txmgr multi-signer records", "BlockStore, UtxoStore, StateDB over SimDB", "block part-set wire round trip"},
-		Stub: []string{"consensus (blocks go CheckBlock -> CommitBlock directly, empty LastCommit; SetLastChangedVals called by the rig as updateToStatus would)", "p2p (transactions are decoded from wire bytes and handed to Mempool.AddTx as the reactor does)", "storage engine (SimDB)", "libxcrypto = the harness's pure-Go model: genuine key derivation, sub-addresses, key images, ECDH amount encoding, commitments, MLSAG and classic ring signatures; the range PROVER is a transparent stand-in (sound, not hiding), so nothing is claimed about range-proof forgery resistance", "wallet: the receiving side is the rig's scan() over linkchain's IsOutputBelongToAccount/EcdhDecode, not wallet/wallet"},
+			"Tamper catalogue on the wire bytes (77 entries: every signed field of every account kind, multi-field, r/s/v = 0, = N, > N, 33-byte, r+N wrapped, r and s swapped, high-s twin with and without flipped recovery id for this chain's V, for the legacy V 27/28 form (the holder signs the bare field list, a third party turns (r,s,v) into (r,N-s,v^1)) and for another chain's V, the out-of-range values again under a legacy V, wrong/out-of-range recovery id, V legacy 27/28, raw recovery id, other chain, +2^64, +256, bit flips, signature from another tx, re-signed by another key / for another chain / for no chain, upgrade signature lists dropped/emptied/duplicated/reversed/all replaced by their twins/sender removed/colluding co-signers naming a victim, validator signatures flipped/truncated/emptied/minority/repeated/duplicated/filed under another validator/made by non-validators/re-signed by a minority; the twin encodings get a fixed 1/6 share of the draws) and on confidential transactions (54 entries: account input nonce/amount, key image, ring member, one-time address, remark, amount field, account output recipient/amount, token, tx key, additional keys, fee, extra, account signature, encrypted amounts, output commitments, range proof, amounts moved to one recipient, pseudo output, MLSAG c/s, classic ring signature, type, fee field; structural edits of the spend authorisation in every combination for short-ring (ring 1, classic signatures in P.Ss) and MLSAG transactions with one and two inputs: P.Ss emptied / last dropped / first dropped / zeroed / swapped / repeated / extended, P.MGs emptied / truncated / extended / rows dropped / last row dropped / commitment column dropped / c zeroed / swapped, both emptied, pseudo outputs dropped / swapped / moved, ring re-declared as short form or grown out of it, input repeated / dropped, commitments / encrypted amounts / range proof dropped or repeated, pairs of these; a spend built with another wallet's keys) plus thefts: spends of existing outputs written from scratch by a key set that owns nothing (9 forms: no signature, no signature and no slot, zero / random signature, classic signature or MLSAG made with the thief's own secret, empty / random MLSAG, two inputs with one unsigned; public parts all consistent), offered (1) to R's mempool, (2) inside a block whose result hashes the producer computed as if the victim had sent it (sender pre-filled) or honestly, to R.CheckBlock, and (3) IN FLIGHT: the forged transaction is submitted to R's mempool on a goroutine of its own, which the simulator parks inside the mempool.App wrapper at CheckTx(tx, BasicCheck) — after Mempool.AddTx has put the entry into the tx cache, before it marks the entry checked or deletes it, no lock held — either before the application's basic check has run or after it has returned (tape), and while it is parked the driver runs R.CheckBlock of a fresh block carrying the same forgery (sometimes instead before the submission or after it has returned), then releases it; 1-3 such flights per round, ring-signed spends/thefts and validator-signed transactions first. One tampered transfer per run is planned before genesis so that the account it recovers to is funded (the different sender is really charged). " +
+			"Oracle: the rig's own reading of the wire bytes (own RLP reader, own signing hash keccak(rlp(fields, chainParameter, 0, 0)), pure-Go btcec recovery, stdlib ed25519, range rules 1<=r<N, 1<=s<=N/2 whatever V says, V=35+2p+recid) says whether a transaction is authorised and whom it charges; ring-signed transactions are authorised iff they are byte-for-byte what an owner built (every edit is a forgery by construction); recognition ground truth is what the rig addressed to whom. Violations: accepted+unauthorised; accepted with another believed sender; accepted with an edited field and the original sender; a victim-charging block accepted; after every commit nonce/balance/token movements (own pre/post state reads of users, signers, victims) that differ from the authorised senders; an output missed by its owner, recognised by another key set, or decoded to another amount/sub-address; a re-signed object that keeps its memoised sender. " +
+			"non-trivial = >= 2 blocks committed, >= 10 tampered transactions judged at the mempool, >= 3 tampered blocks judged, at least one with a warm cache, at least one block verified while its forged transaction was parked inside AddTx; distinct = committed block hashes + every (tamper, stage, outcome).",
+		Real: []string{"types.Transaction / TokenTransaction / ContractUpgradeTx / MultiSignAccountTx / UTXOTransaction (client-side construction and Sign, wire codec, Hash, From, CheckBasic, CheckState, checkRingctSignatures, isOutputBelongToAccount, generateKeyImage, generateOneTimeAddress)", "types STDEIP155Signer, recoverPlain", "libs/crypto secp256k1 (cgo) Sign/Ecrecover/ValidateSignatureValues", "mempool.Mempool incl. tx cache (txHeapManager, CacheSize = default > 0 on the replica), key-image cache and the expiry loops under virtual time; Mempool.AddTx running concurrently with App.CheckBlock at the park points", "app.LinkApplication CheckTx/PreRunBlock/CheckBlock (verifyTxsOnProcess, verifySpecTxSign)/CommitBlock, StateProcessor, state transition, EVM", "txmgr multi-signer records", "BlockStore, UtxoStore, StateDB over SimDB", "block part-set wire round trip"},
+		Stub: []string{"consensus (blocks go CheckBlock -> CommitBlock directly, empty LastCommit; SetLastChangedVals called by the rig as updateToStatus would)", "p2p (transactions are decoded from wire bytes and handed to Mempool.AddTx as the reactor does)", "the replica's mempool.App is a pass-through wrapper around the real LinkApplication that parks one designated AddTx call on a channel", "storage engine (SimDB)", "libxcrypto = the harness's pure-Go model: genuine key derivation, sub-addresses, key images, ECDH amount encoding, commitments, MLSAG and classic ring signatures; the range PROVER is a transparent stand-in (sound, not hiding), so nothing is claimed about range-proof forgery resistance", "wallet: the receiving side is the rig's scan() over linkchain's IsOutputBelongToAccount/EcdhDecode, not wallet/wallet"},
 		Assumptions: []string{
 			"the statement of the scheme the oracle implements (EIP-155 form with the network's parameter types.SignParam, low-s rule, address = keccak(pubkey)[12:]) is the intended one",
 			"btcec (pure Go) recovery, x/crypto keccak and stdlib ed25519 are correct",
@@ -71,6 +71,7 @@ type sample struct {
 	Cfg      runCfg       `json:"cfg"`
 	Rounds   []roundRec   `json:"rounds"`
 	Variants []variantRec `json:"block_variants"`
+	Flights  []flightRec  `json:"in_flight,omitempty"`
 }
 
 // tampered is one tampered transaction offered to the replica.
@@ -87,6 +88,9 @@ type tampered struct {
 	field  bool   // a signed field / component was edited (not only signature values)
 	rct    bool   // only the ring-confidential part of a UTXO transaction was edited
 	unused bool   // the edited field takes no part in the authorisation
+	// scratch: not an edit of a submitted transaction but a forgery written from
+	// scratch (src is a stand-in holding the same bytes)
+	scratch bool
 }
 
 type runner struct {
@@ -108,6 +112,9 @@ type runner struct {
 	carry                                       map[types.Tx]*sent // P's mempool objects of earlier rounds -> submission
 	forged                                      []*tampered        // forgeries produced while generating the round (foreign-key spends)
 	utxo                                        bool               // this run exercises confidential transactions
+	fl                                          *kernel.Tape       // in-flight scenarios (stream of its own)
+	park                                        *parkApp           // wrapper of the replica's mempool.App
+	flightJudged, flightParked                  int
 }
 
 func run(c *kernel.Ctx) {
@@ -145,6 +152,7 @@ func (r *runner) main() {
 	kt := white(c.Tape.Fork("keys"), "keys")
 	r.wl = c.Tape.Fork("workload")
 	r.tm = c.Tape.Fork("tamper")
+	r.fl = c.Tape.Fork("flight")
 	deep := c.Tier == kernel.Thorough
 
 	cfg := runCfg{NVals: 1 + ct.Int(4), NUsers: 4 + ct.Int(5), IsTrie: ct.Bool(1, 2)}
@@ -238,6 +246,8 @@ func (r *runner) main() {
 		}
 	}()
 
+	r.installPark()
+
 	r.objectChecks(first)
 
 	for round := 1; round <= cfg.Rounds && !r.stop; round++ {
@@ -261,7 +271,7 @@ func (r *runner) main() {
 		c.SimTime(gap)
 		w.now += uint64(gap / time.Second)
 	}
-	if r.committed >= 2 && r.memJudged >= 10 && r.blkJudged >= 3 && r.warmJudged >= 1 {
+	if r.committed >= 2 && r.memJudged >= 10 && r.blkJudged >= 3 && r.warmJudged >= 1 && r.flightParked >= 1 {
 		c.NonTrivial()
 	}
 	if len(r.smp.Variants) > 12 {
